@@ -189,6 +189,18 @@ int cp_etrs_ver(size_t thres, const bn_t *td, const bn_t *y, size_t max,
 		ec_curve_get_ord(n);
 
 		flag = 1;
+		/* Trapdoors and nodes must be reduced modulo the group order. */
+		for (i = 0; i < max; i++) {
+			if (bn_sign(td[i]) == RLC_NEG || bn_cmp(td[i], n) != RLC_LT ||
+					bn_sign(y[i]) == RLC_NEG || bn_cmp(y[i], n) != RLC_LT) {
+				flag = 0;
+			}
+		}
+		for (i = 0; i < size; i++) {
+			if (bn_sign(s[i]->y) == RLC_NEG || bn_cmp(s[i]->y, n) != RLC_LT) {
+				flag = 0;
+			}
+		}
 		ec_set_infty(w[0]);
 		for (i = 0; i < d; i++) {
 			for (int j = 0; j < d; j++) {
